@@ -2066,11 +2066,17 @@ class DiskObjectStore(PackBasedObjectStore):
         Raises:
           KeyError: if the object is not found
         """
+        # An object can exist in several places (loose and packed, or in more
+        # than one pack); it is as recent as its most recent copy. Returning
+        # the first copy found would let an age-based prune remove an object
+        # that was written again a moment ago.
+        mtimes = []
+
         # First check if it's a loose object
         if self.contains_loose(sha):
             path = self._get_shafile_path(sha)
             try:
-                return os.path.getmtime(path)
+                mtimes.append(os.path.getmtime(path))
             except FileNotFoundError:
                 pass
 
@@ -2081,12 +2087,14 @@ class DiskObjectStore(PackBasedObjectStore):
                     # Use the pack file's mtime for packed objects
                     pack_path = pack._data_path
                     try:
-                        return os.path.getmtime(pack_path)
+                        mtimes.append(os.path.getmtime(pack_path))
                     except (FileNotFoundError, AttributeError):
                         pass
             except PackFileDisappeared:
                 pass
 
+        if mtimes:
+            return max(mtimes)
         raise KeyError(sha)
 
     def _remove_pack(self, pack: Pack) -> None:
